@@ -188,3 +188,19 @@ Proof.
       rewrite EZ in Hnd'. cbn in Hnd'. inversion Hnd' as [|? ? Hni _]; subst.
       intros ->. apply Hni. left. reflexivity.
 Qed.
+
+(* a rejected residual is rejected in any order, with the same entries in the error *)
+Lemma check_balance_perm_err f d posts r r' e :
+  Permutation r r' -> check_balance f d posts r = Err e ->
+  exists z z', e = UnbalancedPostings z /\
+               check_balance f d posts r' = Err (UnbalancedPostings z') /\ Permutation z z'.
+Proof.
+  intros HP H.
+  destruct (check_balance_cases f d posts r) as [[_ [x Hx]]|[Hnb Herr]]; [congruence|].
+  rewrite Herr in H. injection H as <-.
+  exists (a_remove_zeros (a_round f r)), (a_remove_zeros (a_round f r')).
+  split; [reflexivity|]. split.
+  - apply check_balance_iff. intros Hb. apply Hnb.
+    eapply balanced_perm; [apply Permutation_sym; exact HP|exact Hb].
+  - apply remove_zeros_perm, round_perm, HP.
+Qed.
